@@ -272,7 +272,7 @@ Proof.
     + cbn [wf_fields wf_field]. split; [lia|]. split; [discriminate|]. split; [|split; [discriminate | exact I]].
       split; [repeat constructor; apply L; lia | cbn; lia].
     + repeat constructor. cbn [snd]. intros [K|[]]. discriminate.
-  - eexists. split; vm_compute; reflexivity.
+  - eexists. split; [vm_compute; reflexivity|]. vm_compute. reflexivity.
 Qed.
 
 (* ------------------------------------------------------------------ RFC 3597 generic form *)
@@ -292,10 +292,17 @@ Qed.
 Lemma erase_generic owner ttl cl rt data :
   map erase (generic_sops owner ttl cl rt data) = generic_ops owner ttl cl rt data.
 Proof.
-  unfold generic_sops, generic_ops. cbn [map erase]. cbn [join].
+  unfold generic_sops, generic_ops.
+  change (map erase [STok (TWord (name_shape_syms owner)); STok (TWord (map SChar (show_dec ttl)));
+            STok (TWord (map SChar (show_class cl))); STok (TWord (map SChar (show_rtype rt)));
+            SToks (TWord [SEsc ch_hash]) (TWord (map SChar (show_dec (len data))) :: map hex_shape data)])
+    with [OTok (shape_text (TWord (name_shape_syms owner))); OTok (shape_text (TWord (map SChar (show_dec ttl))));
+          OTok (shape_text (TWord (map SChar (show_class cl)))); OTok (shape_text (TWord (map SChar (show_rtype rt))));
+          OTok (join 32 (shape_text (TWord [SEsc ch_hash]) ::
+                 map shape_text (TWord (map SChar (show_dec (len data))) :: map hex_shape data)))].
   rewrite <- show_name_shape. cbn [shape_text]. rewrite !plain_syms_text. do 4 f_equal. f_equal.
   unfold generic_text. rewrite join_flat. cbn [map flat_map shape_text sym_text app].
-  rewrite plain_syms_text. unfold ch_hash. cbn [app]. do 3 f_equal. rewrite <- app_assoc. f_equal.
+  rewrite plain_syms_text. unfold ch_hash. cbn [app]. do 5 f_equal.
   induction data as [|b d IH]; [reflexivity|]. cbn [map flat_map]. rewrite IH. unfold hex_shape. cbn [shape_text].
   rewrite plain_syms_text. reflexivity.
 Qed.
@@ -336,7 +343,7 @@ Proof.
     - apply plain_word_good, C.
     - apply plain_word_good, T.
     - apply plain_word_good, show_dec_plain.
-    - rewrite Forall_map. unfold wf_bytes in Wd. eapply Forall_impl; [|exact Wd]. intros b Hb. unfold hex_shape.
+    - rewrite Forall_map. unfold wf_bytes in Wd. eapply Forall_impl; [|exact Wd]. intros b Hb. cbv beta in Hb. unfold hex_shape.
       apply plain_word_good. unfold plain_word, show_hex2. cbn [forallb negb andb].
       destruct (hexdig_facts (b / 16) ltac:(lia)) as [P1 _]. destruct (hexdig_facts (b mod 16) ltac:(lia)) as [P2 _].
       rewrite P1, P2. reflexivity. }
